@@ -23,6 +23,17 @@ type sharedWrite struct {
 	At    ssa.Instruction
 	Phase string // "construction" | "run"
 	Entry string
+	Via   string // the library routine the pointer was handed to, for writes that are not plain stores
+}
+
+// externOnlyReads: library routines that do not write through the pointers they are given.
+func externOnlyReads(name string) bool {
+	for _, p := range []string{"fmt.Print", "fmt.Sprint", "fmt.Fprint", "fmt.Errorf", "log.Print", "log.Fatal", "log.Panic"} {
+		if strings.HasPrefix(name, p) {
+			return true
+		}
+	}
+	return false
 }
 
 // findSharedWrites evaluates New and every run-phase entry and reports every
@@ -49,12 +60,44 @@ func findSharedWrites(c *Ctx) (writes, unresolved []sharedWrite, stores int) {
 			writes = append(writes, sharedWrite{Obj: p.Obj, Fn: outerFn(at.Parent()), At: at, Phase: phase, Entry: entry})
 		}
 	}
-	it.Hooks = ai.Hooks{Store: hook}
+	// a library routine handed a pointer into init-time memory may write through it (an image's SetRGBA, a
+	// buffer's Write ...): that is a store the interpreter does not see as one.  Reading routines are listed.
+	var sharedOf func(v ai.Value, out *[]*ai.Object)
+	sharedOf = func(v ai.Value, out *[]*ai.Object) {
+		switch x := v.(type) {
+		case *ai.Ptr:
+			if x.Obj != nil && x.Obj.ID <= limit {
+				*out = append(*out, x.Obj)
+			}
+		case *ai.Slice:
+			if x.Obj != nil && x.Obj.ID <= limit {
+				*out = append(*out, x.Obj)
+			}
+		case *ai.Multi:
+			for _, a := range x.Alts {
+				sharedOf(a, out)
+			}
+		}
+	}
+	extern := func(_ *ai.State, at ssa.Instruction, name string, args []ai.Value) {
+		if externOnlyReads(name) {
+			return
+		}
+		var objs []*ai.Object
+		for _, a := range args {
+			sharedOf(a, &objs)
+		}
+		for _, o := range objs {
+			stores++
+			writes = append(writes, sharedWrite{Obj: o, Fn: outerFn(at.Parent()), At: at, Phase: phase, Entry: entry, Via: name})
+		}
+	}
+	it.Hooks = ai.Hooks{Store: hook, Extern: extern}
 	st := it.StateOn(c.W.PkgInitHeap)
 	it.CallFunction(st, c.W.NewFn, []ai.Value{c.W.Config}, nil)
 	it.Hooks = ai.Hooks{}
 	phase = "run"
-	c.evalAllEntries(ai.Hooks{Store: hook}, nil)
+	c.evalAllEntries(ai.Hooks{Store: hook, Extern: extern}, nil)
 	// entry attribution is not needed for identity
 	return writes, unresolved, stores
 }
